@@ -1,4 +1,4 @@
-\* C18: histories of two files (<= 2 line classes each) over flags, probes, open constructs, errors, forward refs
+\* C18: histories of two files (<= 2 line classes each) over a mode flag + probe, two tables (macro, function: define / use), 8 open constructs, errors, forward refs, EXPECT
 CONSTANTS MaxLines = 2 MaxFiles = 2 Wrap = 0 Leaky = {}
 CONSTANTS Kinds <- KindsHist OptSpace <- OptsTwo
 SPECIFICATION Spec
